@@ -149,6 +149,8 @@ def compare(plan):
     if D["extra"].get("runaway"):
         out.append(V("C15", "step_past_end", n, "the step loop did not stop at the end time"))
     h = digest((A["fps"], A["events"], B["fps"], C["fps"], D["fps"]))
+    compare.last_states = sorted({int(f[:13], 16) for f in A["fps"]})
+    compare.last_events = sum(len(e) for e in A["events"])
     return out, h
 
 
@@ -193,15 +195,16 @@ class C15Driver:
             # pass 0: the adversary chooses its operations online (cranks of one step); afterwards it is a pure function of sim_time
             run0 = execute(plan, [], generate=True)
             aborted = run0.aborted
+        compare.last_states, compare.last_events = [], 0
         vs, h = compare(plan)
-        n_events = 0
+        n_events = compare.last_events
         res = {"seed": seed, "viol": [dict(v) for v in vs[:4]], "stats": {"crank_split": max(0, len(plan["run"]["parts"]) - 1),
                                                                             "lazy_io": int(bool(plan["run"].get("lazy")) or bool(plan["run"].get("flip_lazy"))),
                                                                             "unaligned_interval": int((plan["spec"]["sim"]["end_time"] - plan["spec"]["sim"]["start_time"]) % plan["spec"]["sim"]["timestep_duration_seconds"] != 0),
                                                                             "zero_step_call": int(0 in plan["run"]["parts"]), "generators_reinjected": int(bool(plan["run"].get("reinject"))), "stateful_functional_generator": int("ticker" in (plan["run"].get("generators") or [])), "steps": plan["nsteps"] * 4},
-               "probes": {}, "sigs": [], "abstract": [], "steps": plan["nsteps"] * 4,
+               "probes": {"events_compared": n_events}, "sigs": [], "abstract": list(compare.last_states), "steps": plan["nsteps"] * 4,
                "sim_s": plan["nsteps"] * 4 * plan["spec"]["sim"]["timestep_duration_seconds"],
-               "nontrivial": len(plan["run"]["parts"]) >= 2 and plan["nsteps"] >= 2, "digest": h,
+               "nontrivial": len(plan["run"]["parts"]) >= 2 and plan["nsteps"] >= 2 and n_events > 0, "digest": h,
                "plan_digest": digest((plan["spec"], plan["run"], sorted(plan["ops"].items()))), "aborted": aborted, "size": plan_size(plan)}
         if want_plan:
             res["plan"] = plan
